@@ -167,3 +167,18 @@ Proof.
   - injection X as <- <-. destruct (truthy w); auto.
   - injection X as <- <-. congruence.
 Qed.
+
+(* a slave owns SlavePort objects / records of collection slave_ports only: whatever is done to a slave — and whatever the ids
+   of the local ports look like, e.g. "garage.door_override" next to a slave "garage" — the local ports, the virtual port
+   definitions and their records are exactly what they were *)
+Theorem slave_ops_keep_local_ports : forall h o,
+  match o with OAddSlave _ | OEditSlave _ | ORemoveSlave _ => True | _ => False end ->
+  let h' := step h o in
+  h_live h' = h_live h /\ h_vports h' = h_vports h /\ st_ports h' = st_ports h /\ st_vports h' = st_vports h
+  /\ h_live (restart h') = h_live (restart h).
+Proof.
+  intros h o H. destruct o; try contradiction; simpl.
+  - destruct (mem name (h_slaves h)); repeat split.
+  - destruct (mem name (h_slaves h)); repeat split.
+  - repeat split.
+Qed.
